@@ -333,7 +333,7 @@ func cmdRun(args []string) {
 		if *tier == "quick" {
 			*budget = 240
 		} else {
-			*budget = 2400
+			*budget = 1500
 		}
 	}
 	t0 := time.Now()
